@@ -189,6 +189,7 @@ fn collect(st: NetStats, logs: Vec<(usize, Vec<(usize, Val)>)>) -> Exec {
         loc_ticks: st.loc_of_step,
         msgs_delivered: st.delivered,
         max_in_flight: st.max_in_flight,
+        suspensions: 0,
     }
 }
 
